@@ -74,13 +74,21 @@ def draw_module_edit(draw, mod, in_project, depth=0, focus=False):
 def draw_payload_edit(draw, mod, tname, depth):
     u8 = st.integers(0, 255)
     u16 = vs.edge_int(0, 65535)
+    # every fourth array edit assigns a whole new list object to .values instead of writing one element
+    whole = draw(st.integers(0, 3)) == 0
     if tname == "MultiSynth":
         a = draw(st.sampled_from(["nv_curve", "vv_curve", "np_curve"]))
         n = len(getattr(mod, a).values)
+        if whole:
+            return ["arr_whole", a, draw(st.lists(u16 if a == "np_curve" else u8, min_size=n, max_size=n))]
         return ["arr", a, draw(st.integers(0, n - 1)), draw(u16 if a == "np_curve" else u8)]
     if tname == "WaveShaper":
+        if whole:
+            return ["arr_whole", "curve", draw(st.lists(u16, min_size=256, max_size=256))]
         return ["arr", "curve", draw(st.integers(0, 255)), draw(u16)]
     if tname == "MultiCtl":
+        if whole:
+            return ["arr_whole", "curve", draw(st.lists(vs.edge_int(0, 0x8000), min_size=257, max_size=257))]
         if draw(st.booleans()):
             return ["arr", "curve", draw(st.integers(0, 256)), draw(vs.edge_int(0, 0x8000))]
         return ["mcmap", draw(st.integers(0, 15)), draw(st.sampled_from(["min", "max", "controller", "flags", "future_use2", "future_use5"])), draw(vs.u32())]
@@ -97,7 +105,7 @@ def draw_payload_edit(draw, mod, tname, depth):
     if tname == "Sampler":
         cls = type(mod)
         present = [i for i, s in enumerate(mod.samples) if s is not None]
-        kinds = ["s_field"] * 2 + ["s_map", "s_map_tail", "s_env", "s_point", "s_sample_new"]
+        kinds = ["s_field"] * 2 + ["s_map", "s_map_tail", "s_env", "s_point", "s_sample_new", "s_env_whole", "s_ece_list_whole"]
         if present:
             kinds += ["s_sample_field"] * 3 + ["s_sample_del"]
         if mod.effect is not None and depth < 2:
@@ -118,6 +126,11 @@ def draw_payload_edit(draw, mod, tname, depth):
         which = draw(st.sampled_from(["volume", "panning", "pitch", "fx0", "fx1", "fx2", "fx3"]))
         narrow = which in ("volume", "panning")
         lo, hi = (0, 0x8000) if which in ("volume", "fx0", "fx1", "fx2", "fx3") else (-0x4000, 0x4000)
+        if k == "s_env_whole":
+            # a new envelope object is assigned in place of the loaded one
+            return ["s_env_whole", which, draw(build.envelope(lo, hi, narrow))]
+        if k == "s_ece_list_whole":
+            return ["s_ece_list_whole", [draw(build.envelope(0, 0x8000, False)) for _ in range(4)]]
         if k == "s_env":
             f = draw(st.sampled_from(["enable", "sustain", "loop", "ctl_index", "gain_pct", "velocity", "sustain_point", "loop_start_point", "loop_end_point"]))
             if f in ("enable", "sustain", "loop"):
@@ -261,6 +274,23 @@ def apply_module_edit(mod, e):
         s = e[1]
         if s == "arr":
             getattr(mod, e[2]).values[e[3]] = e[4]
+        elif s == "arr_whole":
+            getattr(mod, e[2]).values = list(e[3])
+        elif s == "s_env_whole":
+            old = envelope_of(mod, e[2])
+            new = type(old)(old.chnm) if e[2].startswith("fx") else type(old)()
+            build.apply_envelope(new, e[3])
+            if e[2].startswith("fx"):
+                mod.effect_control_envelopes[int(e[2][2])] = new
+            else:
+                setattr(mod, e[2] + "_envelope", new)
+        elif s == "s_ece_list_whole":
+            news = []
+            for old, d in zip(mod.effect_control_envelopes, e[2]):
+                new = type(old)(old.chnm)
+                build.apply_envelope(new, d)
+                news.append(new)
+            mod.effect_control_envelopes = news
         elif s == "mcmap":
             setattr(mod.mappings.values[e[2]], e[3], e[4])
         elif s == "harm":
@@ -424,6 +454,12 @@ def module_paths(mod, e, base):
     if s == "s_map_tail":
         return "%s/note_samples/%d" % (pb, e[2]), e[3], ["%s/note_samples" % pb]
     envkey = lambda w: {"volume": "volume_envelope", "panning": "panning_envelope", "pitch": "pitch_envelope"}.get(w) or "effect_control_envelopes/%s" % w[2]  # noqa: E731
+    if s == "arr_whole":
+        return "%s/%s" % (pb, e[2]), list(e[3]), []
+    if s == "s_env_whole":
+        return "%s/%s" % (pb, envkey(e[2])), NOCHECK, []
+    if s == "s_ece_list_whole":
+        return "%s/effect_control_envelopes" % pb, NOCHECK, []
     if s == "s_env":
         v = int(e[4]) if isinstance(e[4], bool) else e[4]
         return "%s/%s/%s" % (pb, envkey(e[2]), e[3]), v, []
